@@ -131,6 +131,9 @@ class AbsEval(ConstEval):
                 return isinstance(op, ast.In)
             r_ = self.branch(Res("In", a, repr(b)[:40]), node)
             return r_ if isinstance(op, ast.In) else not r_
+        if isinstance(op, (ast.Lt, ast.LtE, ast.Gt, ast.GtE)) and isinstance(a, Res) and isinstance(b, Res) and pytype_of(a) == "datetime" and pytype_of(b) == "datetime" and a != b:
+            # two date-times of independent origin: one can be naive (deviation not specified) and the other aware
+            self.may_raise("TypeError", node, "ordering comparison of two date-times, one of which can be naive and the other offset-aware")
         if isinstance(a, Res) or isinstance(b, Res):
             if isinstance(op, (ast.Eq, ast.NotEq)):
                 if a == b:
